@@ -27,7 +27,8 @@ CTXS = [[], [], [], [], [], [], [], [], ["numpy.einsum"], ["numpy.numpylike"], [
 # ------------------------------------------------------------------------------------------------
 # pool of descriptors (a pure function of the master seed and the pool size)
 # ------------------------------------------------------------------------------------------------
-ALIAS_KINDS = ["space", "kworder", "kw-float", "kw-npint", "kw-npfloat", "kw-bool", "kw-0d-int", "kw-0d-float", "kw-seq-tuple", "kw-seq-array", "kw-seq-array-float", "kw-singleton-list", "kw-seq-nested", "neighbour", "tensor-factory", "tensor-factory-varkw", "tensor-factory-name", "tensor-dtype", "tensor-scalar", "graph-toggle", "backend-name"]
+ALIAS_KINDS = ["space", "kworder", "kw-float", "kw-npint", "kw-npfloat", "kw-bool", "kw-0d-int", "kw-0d-float", "kw-seq-tuple", "kw-seq-array", "kw-seq-array-float", "kw-singleton-list", "kw-seq-nested", "neighbour", "tensor-factory", "tensor-factory-varkw", "tensor-factory-name", "tensor-factory-wraps-plain", "tensor-factory-wraps-name", "tensor-factory-wraps-varkw",
+               "tensor-dtype", "tensor-scalar", "graph-toggle", "backend-name"]
 
 
 def applicable_alias_kinds(d):
@@ -52,7 +53,7 @@ def applicable_alias_kinds(d):
         out += ["kw-seq-tuple", "kw-seq-array", "kw-seq-array-float", "kw-seq-nested"]
     nd = [t for t in d["tensors"] if "shape" in t]
     if nd:
-        out += ["tensor-factory", "tensor-factory-varkw", "tensor-factory-name", "tensor-dtype"]
+        out += ["tensor-factory", "tensor-factory-varkw", "tensor-factory-name", "tensor-factory-wraps-plain", "tensor-factory-wraps-name", "tensor-factory-wraps-varkw", "tensor-dtype"]
         if any(t["shape"] == [] for t in nd):
             out.append("tensor-scalar")
     return out
@@ -112,7 +113,8 @@ def make_alias(r, d, kind):
         elif kind.startswith("tensor-factory"):
             nd0 = [j2 for j2, t2 in enumerate(d["tensors"]) if "shape" in t2]
             j = nd0[0]  # always the first tensor: the factory aliases of one base differ only in the factory's signature
-            d["tensors"][j] = {"factory": {"of": d["tensors"][j], "mode": "ok", "sig": {"tensor-factory": "plain", "tensor-factory-varkw": "varkw", "tensor-factory-name": "name"}[kind]}}
+            d["tensors"][j] = {"factory": {"of": d["tensors"][j], "mode": "ok", "sig": {"tensor-factory": "plain", "tensor-factory-varkw": "varkw", "tensor-factory-name": "name", "tensor-factory-wraps-plain": "wraps-plain",
+                                                                                       "tensor-factory-wraps-name": "wraps-name", "tensor-factory-wraps-varkw": "wraps-varkw"}[kind]}}
         elif t["dtype"] == "int64":
             d["tensors"][j] = dict(t, dtype="float64", data=[float(x) for x in t["data"]])
         elif t["dtype"] == "float64":
